@@ -159,7 +159,7 @@ def run(ctx):
             n = math.sqrt(sum(x * x for x in u))
             p = [R * x / n for x in u]
             if k % 10 == 1:                          # a metre (or less) off the axis, height inside [-10 km, 40 000 km]
-                p[0], p[1] = rnd.choice([1.0, 1e-3, 100.0]) * (1 if k % 4 else -1), 0.0
+                p[0], p[1] = rnd.choice([1.0, 1e-3, 100.0, 5e-4, 1e-4, 1e-6]) * (1 if k % 4 else -1), 0.0
                 p[2] = math.copysign(max(R, float(E.semimin) - 9.0e3), p[2] if p[2] else 1.0)
             if k % 10 == 3:
                 p[2] = 0.0
